@@ -571,20 +571,17 @@ func wxfReaderCase(r *vhlib.Run, m *vhlib.Model, bucket string, ops []yrOp) {
 		r.Violate("read-hangs", "a Read did not return within 10s", replay)
 		return
 	}
-	// The Reader model (XFlate/Reader.v, read at "ReadFull" granularity) evaluates the end of a chunk
-	// when the NEXT byte is asked for. The real Reader evaluates it in the Read call in which the
-	// decompressor hands over the last bytes together with its final status - for chunks the
-	// Writer makes that never coincides (the sync marker flushes the data first), for corrupt
-	// chunks it can, and then the error is latched one call earlier than in the model (NOTES.md,
-	// finding 5). Such a history is compared with the model up to that call (exclusive: the call
-	// itself already leaves other internals, e.g. chk.csize += 5); the implementation oracles
-	// below still see all of it.
+	// The real Reader acts on the final status of a chunk in the Read call in which the
+	// decompressor hands over the last bytes together with that status - for chunks the Writer
+	// makes that never coincides (the sync marker hands the data over first), for corrupt chunks
+	// it can, and then the error is latched in the call that still returns data. The Reader model
+	// (XFlate/Reader.v: z_joined, zr_status_now) does the same; such histories are compared with
+	// the model in full (check WXRLATCH aims at them).
 	if k := dataWithErrorAt; k >= 0 {
-		r.Hist["reader:compared-up-to-a-read-that-returned-data-with-an-error"]++
+		r.Hist["reader:histories-with-a-read-that-returned-data-with-an-error"]++
 		if n, _ := r.Notes["data-with-error-witnesses"].([]string); len(n) < 3 {
 			r.Notes["data-with-error-witnesses"] = append(n, fmt.Sprintf("call %d of: %s", k, strings.Join(args, " ")))
 		}
-		args, full = args[:k], full[:k]
 	}
 	obs := "-"
 	if len(full) > 0 {
